@@ -252,8 +252,8 @@ def r16_4(ctx):
     bad = astq.one_shot_globals(ctx.p)
     for m, name, st in bad:
         ctx.fail('R16.4', f'{m.name}.{name}', f'{m.relpath}:{st.lineno} {name}',
-                 f'{name} is bound to a one-shot iterator ({unparse(st.value)[:70]}): whatever reads it first uses it up, later observations '
-                 'of an unchanged file differ', construct=f'{m.relpath}::{name}::one-shot-global')
+                 f'{name} is bound to a one-shot iterator ({unparse(st.value)[:70]}): whatever reads it first uses it up, every later '
+                 'use sees it empty (a second observation of an unchanged file, a second port, a second call then behave differently)', construct=f'{m.relpath}::{name}::one-shot-global')
     ctx.ok('R16.4', 'module-level tables are re-iterable', 'mido: module globals')
     ctx.call_sites += sum(len(m.assigns) for m in ctx.p.modules.values())
 
@@ -319,4 +319,12 @@ def r16_merge(ctx):
     ctx.borrow(c12.r12_scenarios, 'R16.7')
 
 
-RULES = [('R16.8', r16_refused_edit), ('R16.7', r16_merge), ('R16.6', r16_6), ('R16.1', r16_1), ('R16.2', r16_2), ('R16.3', r16_3), ('R16.4', r16_4), ('R16.5', r16_5)]
+def r16_attribute_edit(ctx):
+    """Changing a message attribute stores the value that was given (converted once, checked, stored - a one-shot iterable
+    assigned to sysex data is not used up by the check): what save() and iteration then see is what a fresh file built with
+    that value holds (shared with C03 R03.3)."""
+    from . import c03
+    ctx.borrow(c03.r03_3_setattr, 'R16.9')
+
+
+RULES = [('R16.9', r16_attribute_edit), ('R16.8', r16_refused_edit), ('R16.7', r16_merge), ('R16.6', r16_6), ('R16.1', r16_1), ('R16.2', r16_2), ('R16.3', r16_3), ('R16.4', r16_4), ('R16.5', r16_5)]
